@@ -1,4 +1,5 @@
 """Method calls on strings, containers and modelled objects."""
+import ast
 import z3
 
 from .vals import (SV, Char, Opaque, Cell, Closure, ClassRef, BoundMethod, Builtin, ExcValue, Unsupported, INT, BOOL,
@@ -65,6 +66,9 @@ class MethodMixin:
             top = self.frames[0].contract if self.frames and hasattr(self.frames[0], "contract") else None
             if top is not None and top.unwind == "havoc" and C.CLASSES.get(cls, {}).get("opaque_methods"):
                 return self.opaque_call(f"{cls}.{name}", args, kwargs)     # frame-only contract: an unmodelled method
+            inl = self.auto_inline(recv, cls, name, args, kwargs)
+            if inl is not None:
+                return inl[0]
             raise Unsupported(f"no contract for method {cls}.{name}")
         if isinstance(recv, tuple):
             if name == "index" or name == "count":
@@ -72,6 +76,55 @@ class MethodMixin:
         if isinstance(recv, (int, float)):
             raise Unsupported(f"numeric method {name}")
         raise Unsupported(f"method {name} on {recv!r}")
+
+    def auto_inline(self, recv, cls, name, args, kwargs):
+        """A method of the real class behind the receiver that has no contract is executed symbolically in place (depth <= 2), exactly
+        like a callee marked inline: its body is part of the caller's verified text (recorded as an inlined callee in the evidence)."""
+        ctx = self.ctx
+        depth = getattr(ctx, "_inline_depth", 0)
+        if depth >= 2:
+            return None
+        real = None
+        ct0 = ctx.contract
+        me = ctx.entry_env.get("self") if hasattr(ctx, "entry_env") else None
+        if isinstance(me, SV) and me.ty == recv.ty and "." in ct0.func:
+            real = ct0.func.split(".")[0]          # same model class as the function's own `self`: the real class of the contract
+        elif self.engine.index.find_class(cls):
+            real = cls
+        if real is None:
+            return None
+        seen, todo, hit = set(), [real], None
+        while todo and hit is None:
+            c = todo.pop()
+            if c in seen:
+                continue
+            seen.add(c)
+            found = self.engine.index.find_class(c)
+            if not found:
+                continue
+            rel, node = found
+            for st in node.body:
+                if isinstance(st, ast.FunctionDef) and st.name == name:
+                    hit = (rel, node, st)
+                    break
+            todo.extend(b.id for b in node.bases if isinstance(b, ast.Name))
+        if hit is None:
+            return None
+        rel, cnode, fn = hit
+        decs = [d.id if isinstance(d, ast.Name) else getattr(d, "attr", "") for d in fn.decorator_list]
+        if "property" in decs or "classmethod" in decs:
+            return None
+        from .vals import Closure
+        clo = Closure(fn, {}, name=f"{real}.{name}")
+        clo.module = self.engine.index.module(rel)
+        clo.cls_node = cnode
+        call_args = list(args) if "staticmethod" in decs else [recv] + list(args)
+        self.engine.note_assumption(f"{real}.{name} has no contract of its own: its body is inlined into the caller (part of the verified text)")
+        ctx._inline_depth = depth + 1
+        try:
+            return (self.call_closure(clo, call_args, kwargs),)
+        finally:
+            ctx._inline_depth = depth
 
     MUTATING_LIB_METHODS = {"insert", "update", "pop", "drop_duplicates_inplace", "setdefault", "append", "extend", "add",
                             "remove", "clear", "sort", "reverse", "discard", "popitem", "__setitem__", "set_index_inplace",
